@@ -1485,7 +1485,7 @@ func (e *CoreExtension) filterReverse(value interface{}, args ...interface{}) (i
 		return string(runes), nil
 	case reflect.Array, reflect.Slice:
 		// Create a new slice with the same type
-		resultSlice := reflect.MakeSlice(rv.Type(), rv.Len(), rv.Len())
+		resultSlice := reflect.MakeSlice(reflect.SliceOf(rv.Type().Elem()), rv.Len(), rv.Len())
 		for i, j := 0, rv.Len()-1; j >= 0; i, j = i+1, j-1 {
 			resultSlice.Index(i).Set(rv.Index(j))
 		}
@@ -1637,39 +1637,57 @@ func (e *CoreExtension) filterMerge(value interface{}, args ...interface{}) (int
 	// Handle merging arrays/slices
 	rv := reflect.ValueOf(value)
 	if rv.Kind() == reflect.Slice || rv.Kind() == reflect.Array {
-		result := reflect.MakeSlice(rv.Type(), rv.Len(), rv.Len())
+		// The result is a generic list: the lists being merged may have different
+		// element types (and a Go array has no slice type of its own)
+		result := make([]interface{}, 0, rv.Len())
 
 		// Copy original values
 		for i := 0; i < rv.Len(); i++ {
-			result.Index(i).Set(rv.Index(i))
+			result = append(result, rv.Index(i).Interface())
 		}
 
 		// Add values from the arguments
 		for _, arg := range args {
 			argRv := reflect.ValueOf(arg)
 			if argRv.Kind() == reflect.Slice || argRv.Kind() == reflect.Array {
-				// Create a new slice with expanded capacity
-				newResult := reflect.MakeSlice(rv.Type(), result.Len()+argRv.Len(), result.Len()+argRv.Len())
-
-				// Copy existing values
-				for i := 0; i < result.Len(); i++ {
-					newResult.Index(i).Set(result.Index(i))
-				}
-
-				// Append the new values
 				for i := 0; i < argRv.Len(); i++ {
-					newResult.Index(result.Len() + i).Set(argRv.Index(i))
+					result = append(result, argRv.Index(i).Interface())
 				}
-
-				result = newResult
 			}
 		}
 
-		return result.Interface(), nil
+		return result, nil
 	}
 
 	// Handle merging maps
 	if rv.Kind() == reflect.Map {
+		// Keep the map type when every argument fits into it, otherwise fall back
+		// to a generic map keyed by the string form of the keys
+		sameType := true
+		for _, arg := range args {
+			argRv := reflect.ValueOf(arg)
+			if argRv.Kind() == reflect.Map &&
+				!(argRv.Type().Key().AssignableTo(rv.Type().Key()) && argRv.Type().Elem().AssignableTo(rv.Type().Elem())) {
+				sameType = false
+			}
+		}
+
+		if !sameType {
+			generic := make(map[string]interface{}, rv.Len())
+			for _, key := range rv.MapKeys() {
+				generic[toString(key.Interface())] = rv.MapIndex(key).Interface()
+			}
+			for _, arg := range args {
+				argRv := reflect.ValueOf(arg)
+				if argRv.Kind() == reflect.Map {
+					for _, key := range argRv.MapKeys() {
+						generic[toString(key.Interface())] = argRv.MapIndex(key).Interface()
+					}
+				}
+			}
+			return generic, nil
+		}
+
 		// Create a new map with the same key and value types
 		resultMap := reflect.MakeMap(rv.Type())
 
@@ -1776,7 +1794,7 @@ func (e *CoreExtension) filterSort(value interface{}, args ...interface{}) (inte
 	// Try reflection for other types
 	rv := reflect.ValueOf(value)
 	if rv.Kind() == reflect.Slice || rv.Kind() == reflect.Array {
-		result := reflect.MakeSlice(rv.Type(), rv.Len(), rv.Len())
+		result := reflect.MakeSlice(reflect.SliceOf(rv.Type().Elem()), rv.Len(), rv.Len())
 		for i := 0; i < rv.Len(); i++ {
 			result.Index(i).Set(rv.Index(i))
 		}
